@@ -78,8 +78,9 @@ def node(w, hist, cfg, res):
 def db_scenarios(kind):
     """DB.undo seen from a second connection with cached copies."""
     import transaction
-    from mc import dbworld
+    from mc import dbworld, sched
     env.install()
+    sched.install_locks()
     res = schedx._new_res()
     seen = set()
 
@@ -153,13 +154,27 @@ def db_scenarios(kind):
                             bad('visible', 'db-undo-%s' % outcome, wit,
                                 dict(expected_refused=refused))
                             continue
-                        final = vals[-1] if refused else want
+                        final = dict(vals[-1] if refused else want)
+                        snapshot = dict(vals[-1])
+                        if refused:
+                            # nothing of the refused undo stays behind: the
+                            # next ordinary transaction commits
+                            env.CLOCK.now += 1
+                            try:
+                                c1.root()['x'].v = final['x'] = w.newval()
+                                tm1.commit()
+                            except sched.DeadlockError as e:
+                                tm1.abort()
+                                bad('fail', 'refused-undo-blocks-next-commit',
+                                    wit, dict(error=str(e)[:200]))
+                                continue
+                            vals[-1] = dict(final)
                         if cache:
                             # no boundary yet: still the old snapshot
                             got = {n: c2.root()[n].v for n in w.names}
-                            if got != vals[-1]:
+                            if got != snapshot:
                                 bad('visible', 'observer-saw-undo-early', wit,
-                                    dict(got=got, want=vals[-1]))
+                                    dict(got=got, want=snapshot))
                         if boundary == 'abort':
                             tm2.abort()
                         elif boundary == 'begin':
